@@ -1,8 +1,8 @@
 #!/verif/.venv/bin/python
 # Replay of a solver counterexample against the unmodified code (no shims).
-# property=C05 kernel=ham label=ham:offdiag_other_global_channel_phase#8
+# property=C05 kernel=ham label=ham:diag
 import sys
 sys.path[:0] = ['/repo' + "/pulser-core", '/repo' + "/pulser-simulation", "/verif"]
 from symx.replay import replay
-sys.exit(replay(check='checks.c05', kernel='ham', shape={'program': 'two_glob', 'reconfig': 'noiseless_view'},
-                assignment={'a0': '1/2', 'd0': '1/1024', 'a1': '1/2', 'd1': '-1/1024'}, label='ham:offdiag_other_global_channel_phase#8'))
+sys.exit(replay(check='checks.c05', kernel='ham', shape={'program': 'int_labels'},
+                assignment={'a0': '1/2', 'd0': '1/1024', 'a1': '1/2', 'd1': '1/1024', 'a2': '1/1024', 'd2': '-1/1024'}, label='ham:diag'))
